@@ -7,8 +7,8 @@
    L [I 1; L path]                          -> L [I 1; L path'] | L [I 0]       PathRegistry round trip
    L [I 2; L keys; L keymap; L data; L lookups]   keymap entries L [I kind; I z; I index] (kind 0 str, 1 int, 2 object)
         -> L [L keys'; L data'; L [row'._mapping[k] for the lookups: L [] = error, L [I v]]]
-   L [I 3; L keys; I scalars; L rows; L lookups]  a frozen result
-        -> L [L keys'; I scalars'; L rows'; L [index of the string key in the rebuilt keymap]]
+   L [I 3; L keys; I scalars; L rows; L keymap; L lookups]  a frozen result and the keymap of its metadata
+        -> L [L keys'; I scalars'; L rows'; L [index each lookup key resolves to afterwards: L [] = KeyError]]
    L [I 4; L tables; L classes; L leaves]   tables L [tkey; L ckeys]; classes L [I cls; b64 string; L prop keys]
         leaves L [I 0; t] | L [I 1; t; c] | L [I 2; I cls] | L [I 3; I cls; k] | L [I 4; I cls]
         -> L [L persistent ids; I result]   result 0 ok (and equal), 1 no match, 2 ValueError, 3 KeyError *)
@@ -62,8 +62,6 @@ Definition as_kment (t : tree) : option (rkey * nat) :=
 Definition as_lkey (t : tree) : option rkey :=
   match t with L [I kind; I z] => Some (as_rkey kind z) | _ => None end.
 
-(* SimpleResultMetaData.__setstate__: the keymap is rebuilt from the keys alone *)
-Definition rebuild (keys : list Z) : list (rkey * nat) := combine (map KStr keys) (seq 0 (List.length keys)).
 
 Definition as_leaf (t : tree) : option leaf :=
   match t with
@@ -116,14 +114,13 @@ Definition run_case (t : tree) : tree :=
              L (map (fun k => match row_get r k with Some v => L [I v] | None => L [] end) lks)]
       | _, _, _, _ => bad_input
       end
-  | L [I 3; keys; I sc; rows; lk] =>
-      match as_list_of as_Z keys, as_list_of (as_list_of as_Z) rows, as_list_of as_Z lk with
-      | Some ks, Some rs, Some lks =>
-          let f := frozen_roundtrip (mkFrozen (mkMd ks (rebuild ks)) (sc =? 1) rs) in
+  | L [I 3; keys; I sc; rows; km; lk] =>
+      match as_list_of as_Z keys, as_list_of (as_list_of as_Z) rows, as_list_of as_kment km, as_list_of as_lkey lk with
+      | Some ks, Some rs, Some kmap, Some lks =>
+          let f := frozen_roundtrip (mkFrozen (mkMd ks kmap) (sc =? 1) rs) in
           L [L (map I (fst (thaw f))); of_bool (fr_scalars f); L (map (fun r => L (map I r)) (snd (thaw f)));
-             L (map (fun k => match md_index (KStr k) (rebuild (md_keys (fr_md f))) with
-                              | Some i => L [of_nat i] | None => L [] end) lks)]
-      | _, _, _ => bad_input
+             L (map (fun k => match frozen_index f k with Some i => L [of_nat i] | None => L [] end) lks)]
+      | _, _, _, _ => bad_input
       end
   | L [I 4; tbs; cls; lvs] =>
       match as_list_of as_table tbs, as_list_of as_class cls, as_list_of as_leaf lvs with
